@@ -989,6 +989,7 @@ func callBuiltin(caller *frame, callpos token.Pos, fn *ssa.Builtin, args []value
 	case "delete": // delete(map[K]value, K)
 		switch m := args[0].(type) {
 		case *omap:
+			caller.i.onMapAccess(caller, nil, m, true)
 			m.delete(args[1])
 		default:
 			panic(fmt.Sprintf("illegal map type: %T", m))
@@ -1023,6 +1024,7 @@ func callBuiltin(caller *frame, callpos token.Pos, fn *ssa.Builtin, args []value
 		case []value:
 			return len(x)
 		case *omap:
+			caller.i.onMapAccess(caller, nil, x, false)
 			return x.len()
 		case sym:
 			return symStrLen(x)
